@@ -321,6 +321,18 @@ def refit_cases(tier, seed):
                                   X1=X1.tolist(), X2=X2.tolist(), y=y.tolist(), pairs=P.tolist(), seed=s)
               bad['signature'] = '%s: %s after %s' % (bad['tag'], cls, 'the first fit' if step == 0 else 'a refit')
               return bad
+          # hyper-parameters changed AFTER the fit do not change the fitted model: every view still describes components_
+          if 'n_components' in est.get_params():
+            est.set_params(n_components=1)
+            try:
+              bad = check_views(est, np.array(est.components_), P)
+            except Exception as e:
+              bad = _bad('views-raise', TAG_PD, '%s: %s' % (type(e).__name__, e))
+            if bad:
+              bad['input'] = dict(estimator=cls, params=kw2, history='fit(X2, y); set_params(n_components=1); views (no refit)',
+                                  X2=X2.tolist(), y=y.tolist(), pairs=P.tolist(), seed=s)
+              bad['signature'] = '%s: %s after set_params(n_components) without refit' % (bad['tag'], cls)
+              return bad
         return None
       yield 'views after fit and refit %s rep=%d' % (cls, rep), ALL_TAGS, thunk
 
